@@ -179,6 +179,10 @@ def list_targets(coredata: cdata.CoreData, builddata: build.Build, backend: back
         # Ask the backend, which is what decides where the outputs go (with
         # layout=flat that includes the target's build_subdir).
         outdir = backend.get_target_dir(target)
+        if isinstance(target, build.CompileTarget):
+            # No link step: the outputs are the compiled "objects", which the
+            # backend writes to the target's private directory.
+            outdir = backend.get_target_private_dir(target)
         t = {
             'name': target.get_basename(),
             'id': idname,
